@@ -98,7 +98,9 @@ def search_part(run):
         "kernel": {"k0": S(kb[0]), "k1": S(kb[1]), "k2": S(kb[2])}, "bias": {"b0": S(bb[0]), "b1": S(bb[1])},
         "activation": {"a0": S(ab[0]), "a1": S(ab[1]), "a2": S(ab[2])}, "linear": {"l0": S(kb[0])},
         "pointwise_kernel": {"k0": S(kb[0]), "k1": S(kb[1])}, "recurrent_kernel": {"k0": S(kb[0])}, "recurrent_activation": {"a0": S(ab[0])}}
-    hm.limit = {"Dense": [S(lk), S(lb), S(la)], "Conv2D": [["k0", "k2"], S(lb), S(la)], "^blk_.*": [S(pk), S(lb), S(la)]}
+    hm.limit = {"Dense": [S(lk), S(lb), S(la)], "Conv2D": [["k0", "k2"], S(lb), S(la)], "^blk_.*": [S(pk), S(lb), S(la)],
+                # a later, more general pattern that also matches "blk_1": the first matching entry decides
+                "^b.*": [S(lk), S(lb), S(la)]}
     hm.groups = {}
     return hm
   cfgbits = dict(k0=kb[0], k1=kb[1], k2=kb[2], b0=bb[0], b1=bb[1], a0=ab[0], a1=ab[1], a2=ab[2])
@@ -196,7 +198,8 @@ def replay_search(cname, mdl):
   hm = aq.AutoQKHyperModel.__new__(aq.AutoQKHyperModel)
   hm.quantization_config = cfg
   hm.limit = {"Dense": [lim["limit_kernel"], lim["limit_bias"], lim["limit_activation"]], "Conv2D": [["k0", "k2"], lim["limit_bias"], lim["limit_activation"]],
-              "^blk_.*": [lim["limit_pattern_kernel"], lim["limit_bias"], lim["limit_activation"]]}
+              "^blk_.*": [lim["limit_pattern_kernel"], lim["limit_bias"], lim["limit_activation"]],
+              "^b.*": [lim["limit_kernel"], lim["limit_bias"], lim["limit_activation"]]}
   hm.groups = {}
   hp = ScriptHP([g("choice_%d" % i, 0) for i in range(1, 5)])
   allbits = dict(k0=kb[0], k1=kb[1], k2=kb[2], b0=bb[0], b1=bb[1], a0=ab[0], a1=ab[1], a2=ab[2])
@@ -623,7 +626,7 @@ def run(tier, seed):
               "size model: dense / conv / activation stand-in layers with symbolic dimensions (<= 64) and symbolic bit widths",
               "history: one target object, get_reference / get_trial / get_trial / get_reference on two models with independent symbolic bit widths",
               "search space: _get_quantizer on a configuration of 3 kernel / 2 bias / 3 activation quantizers with symbolic bit widths (1..32) and "
-              "symbolic limits for a class entry, a list-valued entry and a regex pattern entry; the tuner's Choice is any element of the offered "
+              "symbolic limits for a class entry, a list-valued entry and two overlapping regex pattern entries (the first matching one decides); the tuner's Choice is any element of the offered "
               "list; clauses: chosen bits <= limit (or name in the list), bits reported = configured bits, class outside the limits -> (None, -1), "
               "layers matching one pattern share the choice without a new tuner variable",
               "trial models (auxiliary enumeration, exhaustive within the bound): all assignments of four small search spaces on a "
